@@ -24,7 +24,7 @@ def main():
     ap = argparse.ArgumentParser()
     ap.add_argument("seed_id"); ap.add_argument("prop"); ap.add_argument("worktree"); ap.add_argument("diff"); ap.add_argument("demo")
     ap.add_argument("--checks", default=None); ap.add_argument("--tier", default="quick"); ap.add_argument("--needs", default="")
-    ap.add_argument("--skip-demo", action="store_true"); ap.add_argument("--on-repo", action="store_true")
+    ap.add_argument("--demo-cwd", default=None); ap.add_argument("--skip-demo", action="store_true"); ap.add_argument("--on-repo", action="store_true")
     a = ap.parse_args()
     checks = (a.checks or a.prop).split(",")
     out = {"seed": a.seed_id, "property": a.prop, "needs": a.needs, "ran": []}
@@ -35,9 +35,9 @@ def main():
         if rc:
             print("diff does not apply:", o); return 2
         env = dict(ENV, PYTHONPATH=f"{wt}/src")
-        rc0, o0 = sh(f"/venv/bin/python {a.demo}", cwd=wt, env=env)
+        rc0, o0 = sh(f"/venv/bin/python {a.demo}", cwd=a.demo_cwd or wt, env=env)
         sh(f"git apply {a.diff}", cwd=wt)
-        rc1, o1 = sh(f"/venv/bin/python {a.demo}", cwd=wt, env=env)
+        rc1, o1 = sh(f"/venv/bin/python {a.demo}", cwd=a.demo_cwd or wt, env=env)
         sh("git checkout -- .", cwd=wt)
         out["demo_without_change"] = rc0; out["demo_with_change"] = rc1
         out["ran"].append(f"demo in scratch worktree: exit {rc0} without the change, exit {rc1} with it")
